@@ -372,6 +372,23 @@ def F21():
     return bad
 
 
+def F22():
+    """C13: a table parameter written as a TOML inline table is rejected as 'not of the correct type'"""
+    import os, tempfile
+    f = tempfile.mktemp(suffix=".toml")
+    with open(f, "w") as fh:
+        fh.write('[vloss]
+vdrop = {vi=[2.5], io=[0.1,0.5,0.9], vdrop=[[0.2,0.4,0.5]]}
+')
+    try:
+        VLoss.from_file("a", fname=f)
+        return []
+    except ValueError as e:
+        return ["inline table: %s" % e]
+    finally:
+        os.remove(f)
+
+
 ALL = {k: v for k, v in globals().items() if k[0] == "F" and k[1:].isdigit()}
 if __name__ == "__main__":
     rc = 0
